@@ -225,6 +225,8 @@ def build_fn(unit, file_spec, item_spec, opts, sections, log, probes=False):
             newname = o[5:]
     if is_fn and newname:
         text = re.sub(r"\bfn\s+\w+", "fn " + newname, text, count=1)
+    if is_fn and "noisolation" in opts:
+        lead += "#[verifier::loop_isolation(false)]\n"
     if "novis" not in opts:
         if is_fn or re.match(r"\s*(struct|enum|const|static|type)\b", text):
             text = "pub " + text.lstrip()
@@ -425,6 +427,9 @@ def build_fn(unit, file_spec, item_spec, opts, sections, log, probes=False):
         cur_line += s.count("\n")
     out.append(text[pos:])
     final = "".join(out)
+    if lead:
+        final = lead + final
+        rel = [(c, ln + lead.count("\n")) for (c, ln) in rel]
     return final, info, rel
 
 
